@@ -17,11 +17,11 @@ ASSUMPTIONS = ['sizes observed through len(f.__cache__()) / f.info().size only',
 QUICK_N, THOROUGH_N = 400, 2500
 
 
-def strategy(tier):
-    return G.cache_cases(
+def strata(tier):
+    return G.strata_grid(
         maxsizes=(2, 1, 3, 4, 6, 0, None), ms_pos=(False, True), max_ops=35 if tier == 'quick' else 60,
         weights={'call': 14, 'load': 3, 'dump': 2, 'loadk': 1, 'dumpk': 1, 'clear': 1, 'clearkeep': 0, 'awrite': 2, 'burst': 2, 'arch_off': 1, 'arch_on': 1},
-        mem_weight=70 if tier == 'quick' else 40, pool=(3, 8), prefill_pct=30)
+        pool=(3, 8), prefill_pct=30)
 
 
 def execute(case):
